@@ -114,6 +114,25 @@ class StandardQpt(StandardQTomography):
     def _validate_type(self, targets, expected_type) -> None:
         Experiment._MEMO.clear()
 ''')],
+    # derived table updated by a list setter BEFORE validation and not rolled back when the setter rejects
+    "M7": [(X, """        self._validate_type(value, Povm)
+        objdict = dict(
+""", """        self._validate_type(value, Povm)
+        self._sizes["povm"] = len(value)
+        objdict = dict(
+"""), (X, """        # Validate
+        self._validate_schedules(schedules)
+        # Set
+""", """        # Validate
+        self._sizes = dict(state=len(states), povm=len(povms), gate=len(gates), mprocess=len(mprocesses))
+        self._validate_schedules(schedules)
+        # Set
+"""), (X, """        if not (0 <= item_index < len(objdict[item_name])):
+""", """        limit = len(objdict[item_name])
+        if item_name == "povm" and objdict["povm"] is self._povms:
+            limit = self._sizes["povm"]
+        if not (0 <= item_index < limit):
+""")],
 }
 
 
